@@ -180,6 +180,25 @@ func init() {
 		r.verifyHelpers(ld, nil)
 		comps := allComps()
 		r.checkArms(ld, filterEnc(famBlock), func(Encoding) map[string]bool { return comps }, true, false)
+		// "each Step performs exactly one element": the Step around executeOne
+		// adds nothing and skips nothing when no request is accepted (no request,
+		// or a maskable one while interrupts are disabled), whatever else the CPU
+		// value holds
+		var cs []stepCase
+		for _, e := range filterEnc(famBlock) {
+			e := e
+			cs = append(cs, stepCase{name: "noint[" + e.String() + "]", spec: func(x *Exec, st *State, a []Value) {
+				x.setCPU(st, a[0].(*PtrV), &PtrV{}, "Interrupt")
+				x.specialise(st, a[0].(*PtrV), e)
+			}})
+			cs = append(cs, stepCase{name: "refused[" + e.String() + "]", spec: func(x *Exec, st *State, a []Value) {
+				cpu := a[0].(*PtrV)
+				x.pinInterrupt(st, cpu, 1)
+				x.setCPU(st, cpu, x.b.False(), "IFF1")
+				x.specialise(st, cpu, e)
+			}})
+		}
+		r.checkFn(ld, "z80.(*CPU).Step", cs, comps, true, false, "cpu.Step()")
 		r.checkLemmas(ld, "C09")
 	}
 	checks["C16"] = func(ld *Loaded, r *Run) {
